@@ -96,7 +96,39 @@ func checkC05(c *Ctx) {
 		c.Check(ok, "R1", "dealt-in-writer:"+FuncName(ss.Fn), where, "IsParticipated ← IsPlayerActive(same player) in the continue step", "the dealt-in flag is written from "+v.String()+" outside the open/continue steps' eligibility copy")
 	}
 	// error exits return the old table
-	_, _, _, errRets, ab := p.ExitsWithGuards(open)
+	okGs, _, okRets, errRets, ab := p.ExitsWithGuards(open)
+	// success exits return the clone, and only after the rotation / initialisation AND every
+	// eligibility query succeeded
+	{
+		okNew := !ab && len(okRets) >= 1
+		dNew := ""
+		for i, r := range okRets {
+			root := p.Sym(r.Results[0]).Root()
+			if !(root.Kind == "extract" && root.Args[0].IsCall("Table.Clone")) {
+				okNew, dNew = false, fmt.Sprintf("the exit at %s reports success but returns %s, not the new hand's table", p.InstrPos(r), p.Sym(r.Results[0]))
+				continue
+			}
+			rotated := false
+			for _, ci := range Calls(open) {
+				call, isCall := ci.(*ssa.Call)
+				if !isCall {
+					continue
+				}
+				switch calleeName(call.Common()) {
+				case "SeatManager.InitPositions", "SeatManager.RotatePositions":
+					ev := callErrValue(call)
+					if nilGuard(okGs[i], true, func(x *Sym) bool { return x.V == ev }) {
+						rotated = true
+					}
+				}
+			}
+			if !rotated {
+				okNew, dNew = false, fmt.Sprintf("the open step can succeed (exit at %s) without a successful rotation or initialisation of the positions", p.InstrPos(r))
+			}
+		}
+		c.Check(okNew, "R1", "open-success-returns-rotated-clone", p.Pos(open.Pos()), fmt.Sprintf("%d success exit(s) return the clone after a successful rotation", len(okRets)), dNew)
+	}
+	checkOpenRotation(c, "R1")
 	okOld := !ab
 	d := ""
 	for _, r := range errRets {
@@ -539,4 +571,35 @@ func checkDealtInCopy(c *Ctx, rule string) {
 		c.Check(root.Kind == "extract" && root.Args[0].IsCall("Table.Clone"), rule, "dealt-in:on-clone", where, "written on the clone", "the dealt-in flag is written on the live table before the open step is known to succeed")
 	}
 	c.Min(rule, "dealt-in flag stores in the open step", n1, 1)
+}
+
+// checkOpenRotation: the open step initialises the positions on the first hand only and
+// rotates them on every later hand, exactly one of the two per hand. Shared by C05.R1 and C04.R9.
+func checkOpenRotation(c *Ctx, rule string) {
+	p := c.P
+	open := p.lifecycle().openFn
+	if open == nil {
+		c.Bad(rule, "open-rotation", "-", "open step not found")
+		return
+	}
+	nI, nR := 0, 0
+	for _, ci := range Calls(open) {
+		switch calleeName(ci.Common()) {
+		case "SeatManager.InitPositions":
+			nI++
+		case "SeatManager.RotatePositions":
+			nR++
+		}
+	}
+	c.Check(nI == 1 && nR == 1, rule, "open-rotation:once-per-hand", p.Pos(open.Pos()), "one init site and one rotate site, mutually exclusive", fmt.Sprintf("the open step has %d initialisation and %d rotation call(s): positions must move exactly once per hand", nI, nR))
+	// init only when positions were never initialised, rotate otherwise
+	for _, ci := range Calls(open) {
+		isInit := func(x *Sym) bool { return x.IsCall("SeatManager.IsInitPositions") }
+		switch calleeName(ci.Common()) {
+		case "SeatManager.InitPositions":
+			c.Check(guardedBy(p.Guards(ci), false, isInit), rule, "first-hand-initialises", p.InstrPos(ci), "InitPositions only when not yet initialised", "positions are re-initialised on a table whose positions already exist (the button would jump instead of moving on)")
+		case "SeatManager.RotatePositions":
+			c.Check(guardedBy(p.Guards(ci), true, isInit), rule, "later-hands-rotate", p.InstrPos(ci), "RotatePositions only when initialised", "positions are rotated before they were ever initialised")
+		}
+	}
 }
